@@ -115,7 +115,7 @@ func TestCheck(t *testing.T) {
 		t.Fatalf("register: %v", err)
 	}
 
-	n := int64(cfg.Pick(20000, 1200000))
+	n := int64(cfg.Pick(20000, 800000))
 	bbEvery := int64(cfg.Pick(10, 25))
 	rep.Require("outcome/"+clsOK, 1000)
 	rep.Require("bb/"+bbOK, 20)
